@@ -118,7 +118,7 @@ where
                 if strict {
                     cx.rep.violation(
                         &format!("C01|{site}|not-{law}(model)|{class}"),
-                        &format!("{}: the two sides reveal different lattice values: {:?} vs {:?}", T::name(), l, rr),
+                        &format!("{}: the two sides reveal different lattice values: {:?} vs {:?}", T::name(), l.reveal(), rr.reveal()),
                         c01_json::<T>(law, rs),
                     );
                 }
@@ -130,7 +130,7 @@ where
                     if strict {
                         cx.rep.violation(
                             &format!("C01|{site}|not-{law}(crate-eq)|{class}"),
-                            &format!("{}: the crate's == says the two sides differ: {:?} vs {:?}", T::name(), l, rr),
+                            &format!("{}: the crate's == says the two sides differ: {:?} vs {:?}", T::name(), l.reveal(), rr.reveal()),
                             c01_json::<T>(law, rs),
                         );
                     }
